@@ -529,6 +529,58 @@ def related_names(node, value, every=False):
     return [("truncated", n) for n in trunc] + [("extended", n) for n in ext]
 
 
+APPEND_SUFFIX = "+"  # the one character of the key grammar with a meaning of its own: `name+` = append to the list `name`
+
+
+def appendable(node):
+    """`key+` is a defined spelling (append) only for list-typed keys, also below Optional / Union."""
+    if node["k"] == "list":
+        return True
+    return node["k"] == "opt" and appendable(node["of"])
+
+
+def suffixed_names(node, value, every=False):
+    """[(tag, name)] - foreign key names that carry the append suffix `+` although no list-typed key of the node has
+    that base name:
+
+      "plus-suffixed"          a name no parser level defines, plus `+`         (`zzq+`)
+      "plus-suffixed-defined"  a key the node defines that is NOT list-typed, plus `+`   (`yaw+` next to `yaw: int`)
+
+    `key+` for a list-typed key is the library's append spelling, i.e. a defined key - never used here.
+    every=False: one defined base key per node (an int leaf if there is one, then a name of >= 3 letters, then
+    declaration order); every=True: one per KIND of non-list key the node defines (int leaf, str leaf, each group /
+    dataclass / class-typed / dict kind, subcommand selector, subcommand name; class_path and init_args) - whether
+    `key+` means "append" is decided by the type of `key`."""
+    defined = defined_keys(node, value)
+    out = [("plus-suffixed", FOREIGN + APPEND_SUFFIX)]
+    if node["k"] == "spec":
+        cand, kind_of = ["class_path", "init_args"], (lambda k: k)
+    else:
+        fields = node["fields"]
+        cand = [k for k in _ordered_keys(node) if k not in fields or not appendable(fields[k][0])]
+
+        def kind_of(k):
+            if k not in fields:
+                return "selector" if k == node["subs"]["dest"] else "subcommand-name"
+            child = fields[k][0]
+            while child["k"] == "opt":
+                child = child["of"]
+            return (child["k"], child.get("t") or child.get("label") or "")
+
+        def rank(k):
+            return (0 if kind_of(k) == ("leaf", "int") else 1, 0 if len(k) >= 3 else 1)
+
+        cand.sort(key=rank)
+    names, kinds = [], set()
+    for k in cand:
+        name = k + APPEND_SUFFIX
+        if k in NOT_FOREIGN or name in defined or kind_of(k) in kinds:
+            continue
+        kinds.add(kind_of(k))
+        names.append(name)
+    return out + [("plus-suffixed-defined", n) for n in (names if every else names[:1])]
+
+
 def _ordered_keys(node):
     if node["k"] == "spec":
         return ["class_path", "init_args"]
@@ -538,7 +590,7 @@ def _ordered_keys(node):
     return keys
 
 
-def mutations(schema, cfg, subpath=(), rich=False, values=(1,), related=True, related_every=False):
+def mutations(schema, cfg, subpath=(), rich=False, values=(1,), related=True, related_every=False, suffixed=None, suffixed_every=False):
     """Every single-position mutation of a valid configuration:
     ["foreign", path, kind, name, value(, name class)]  insert a foreign key into the mapping at `path`; the name
                                             class is given for the spelling neighbours of related_names()
@@ -548,7 +600,11 @@ def mutations(schema, cfg, subpath=(), rich=False, values=(1,), related=True, re
     (its selector key; the settings sections go with it, otherwise the library legitimately infers the selection
     from the section that is present - that rule is C17's).
     rich=False: foreign key "zzq" with every value in `values`.  rich=True: every name of foreign_names() x values {1, None, {"x": 1}}.
-    related=True: additionally the spelling neighbours of related_names() (one per class; related_every: per defined key), value 1."""
+    related=True: additionally the spelling neighbours of related_names() (one per class; related_every: per defined key), value 1.
+    suffixed (default: like related): additionally the `+`-suffixed names of suffixed_names() (suffixed_every: one per
+    kind of non-list defined key), value 1."""
+    if suffixed is None:
+        suffixed = related
     out = []
     for path, node, value, label, ctx, alts in walk(schema, cfg):
         kind = label if label == "top" else f"{label}@{ctx}"
@@ -561,6 +617,9 @@ def mutations(schema, cfg, subpath=(), rich=False, values=(1,), related=True, re
                 out.append(["foreign", list(path), kind, FOREIGN, fvalue])
         if related:
             for tag, name in related_names(node, value, every=related_every):
+                out.append(["foreign", list(path), kind, name, 1, tag])
+        if suffixed:
+            for tag, name in suffixed_names(node, value, every=suffixed_every):
                 out.append(["foreign", list(path), kind, name, 1, tag])
         if node["k"] != "rec":
             continue
